@@ -48,6 +48,10 @@ Definition run_C13 (i : term) : term :=
     let tab := shift_syms (gz (gn i 1)) (map sym_of (gl (gn i 2))) in
     TL (map (fun a => of_optname (addr_info tab a)) (gzs (gn i 3)))
   else if String.eqb op "maps" then TL []
+  else if String.eqb op "a2lnm" then
+    let base := gz (gn i 1) in
+    let nm := if gb (gn i 3) then Some (shift_syms base (map sym_of (gl (gn i 2)))) else None in
+    of_ss (a2l_addr_info base nm (gz (gn i 4)) (gss (gn i 5)))
   else if String.eqb op "tooladdr" then
     let v := tool_addr (gz (gn i 1)) (gz (gn i 2)) in TL [TZ v; TZ v; TZ v]
   else TL [TS "unknown-op"].
@@ -83,6 +87,9 @@ Definition spec_C13 (i o : term) : bool :=
     let addrs := gzs (gn i 3) in
     (List.length addrs =? List.length (gl o))%nat &&
     forallb (fun ar => spec_addr_info tab (fst ar) (optname_of (snd ar))) (combine addrs (gl o))
+  else if String.eqb op "a2lnm" then
+    if gb (gn i 3) then spec_a2l_fixup (shift_syms (gz (gn i 1)) (map sym_of (gl (gn i 2)))) (gz (gn i 4)) (gss (gn i 5)) (gss o)
+    else strs_eqb (gss o) (gss (gn i 5))
   else if String.eqb op "tooladdr" then
     let base := gz (gn i 1) in let a := gz (gn i 2) in
     if (0 <=? base) && (base <=? a) && (a <? two64)
